@@ -91,8 +91,8 @@ func (w *pageWriteWatch) install(n *drv.Node) {
 // ---- family A: SQLite-producible journals --------------------------------------
 
 func c17A(c *core.Case) {
-	ps := []uint32{512, 1024, 4096, 512, 8192}[(c.Index/4)%5]
-	sector := []uint32{512, 4096}[(c.Index/20)%2]
+	ps := []uint32{512, 1024, 4096, 512, 8192, 65536, 32768}[(c.Index/4)%7]
+	sector := []uint32{512, 4096}[(c.Index/28)%2]
 	mode := []string{"delete", "truncate", "persist"}[(c.Index/40)%3]
 	dir := c.Dir + "/data"
 	n, err := newPrimary(dir, nil)
@@ -428,8 +428,8 @@ func buildJournal(c *core.Case, img *ref.Image, sector uint32, recs []uint32, nr
 }
 
 func c17B(c *core.Case) {
-	ps := []uint32{512, 1024, 4096}[(c.Index/4)%3]
-	sector := []uint32{512, 4096}[(c.Index/12)%2]
+	ps := []uint32{512, 1024, 4096, 65536, 16384}[(c.Index/4)%5]
+	sector := []uint32{512, 4096}[(c.Index/20)%2]
 	dir := c.Dir + "/data"
 	dbdir := filepath.Join(dir, "dbs", "db")
 	_ = os.MkdirAll(filepath.Join(dbdir, "ltx"), 0o755)
@@ -562,8 +562,8 @@ func minInt(a, b int) int {
 // ---- family C: WAL scanning --------------------------------------------------------
 
 func c17C(c *core.Case) {
-	ps := []uint32{512, 1024, 4096}[(c.Index/4)%3]
-	be := (c.Index/12)%2 == 0
+	ps := []uint32{512, 1024, 4096, 65536, 2048, 8192, 32768, 16384}[(c.Index/4)%8]
+	be := (c.Index/32)%2 == 0
 	// base: a valid WAL with several transactions
 	npages := uint32(3 + c.Rng.IntN(12))
 	img := ref.NewImage(ps)
